@@ -12,6 +12,7 @@
 -/
 import MdwModel.Theorems.CtxLayout
 import MdwModel.Model.Exception
+import MdwModel.Theorems.Image
 namespace Mdw
 
 /-- a supplied ucontext / fpstate with values in their machine ranges -/
@@ -109,5 +110,28 @@ theorem C05_fields_nocrash (l : Nat × Nat) (ip : Nat) (sa : Nat × Nat) :
 
 example : UctxOk [1, 2, 3] ⟨0x37f, 0, 0, 0, 0, 0, 0x1f80, 0xffff, [], []⟩ := by
   constructor <;> first | decide | (intro i; simp [greg]; rcases i with _ | _ | _ | _ | i <;> simp <;> omega)
+
+
+-- the whole image ----------------------------------------------------------------------------------------------------
+
+/-- **C05 (image: blamed thread listed).** the exception stream (directory slot 3) names the blamed thread, carries
+    the supplied signal number, code and address — or "dump requested" and the thread's instruction pointer — and
+    points at the location of the blamed thread's thread-list context, where that context's bytes are -/
+theorem C05_image_listed (d : DumpIn) (k : Nat) (t : DThread) (hk : d.threads[k]? = some t) (ht : t.tid = d.blamed)
+    (hlast : ∀ j t', k < j → d.threads[j]? = some t' → t'.tid ≠ d.blamed) :
+    let loc := (t.ctx.length, t.ctxRva (threadPos d k))
+    let f := match d.crash with
+      | some c => (c.signo, c.code, c.addr)
+      | none => (DUMP_REQUESTED, 0, t.ip)
+    (dumpAcc d).dir[3]? = some ⟨ST_EXCEPTION, 168, (acc4 d).pos⟩ ∧
+    At (dumpBytes d) (acc4 d).pos (serExc d.blamed f.1 f.2.1 f.2.2 loc.1 loc.2) ∧
+    At (dumpBytes d) loc.2 t.ctx := Image_exception_listed d k t hk ht hlast
+
+/-- **C05 (image: blamed thread not listed).** the supplied context is kept: written for the exception stream, which
+    points at it -/
+theorem C05_image_unlisted (d : DumpIn) (c : CrashInfo) (hc : d.crash = some c) (hno : ∀ t ∈ d.threads, t.tid ≠ d.blamed) :
+    At (dumpBytes d) (acc4 d).pos d.standalone ∧
+    At (dumpBytes d) ((acc4 d).pos + d.standalone.length)
+      (serExc d.blamed c.signo c.code c.addr d.standalone.length (acc4 d).pos) := Image_exception_unlisted d c hc hno
 
 end Mdw
